@@ -95,15 +95,43 @@ func loopExits(h *ssa.BasicBlock) (exits []LoopExit, body map[int]bool) {
 	for n := range nodes {
 		body[n.Idx] = true
 	}
+	panics := func(x *VNode) bool {
+		if len(x.Succs) != 0 || len(x.Instrs) == 0 {
+			return false
+		}
+		_, isPanic := x.Instrs[len(x.Instrs)-1].(*ssa.Panic)
+		return isPanic
+	}
 	for n := range nodes {
 		if len(n.Instrs) == 0 || len(n.Succs) != 2 {
+			continue
+		}
+		// range-over-func loop body: "return true" with the sequence exhausted is the loop's regular exit,
+		// provided the iterator is one of the standard whole-sequence iterators
+		if ret, ok := n.Instrs[len(n.Instrs)-1].(*ssa.Return); ok && isRangeBody(n.Fn) {
+			if !nodes[n.Succs[0]] || !nodes[n.Succs[1]] {
+				kind := "other"
+				if site := helperSite[n.Fn]; site != nil {
+					if c, ok := site.Call.Value.(*ssa.Call); ok && c.Call.StaticCallee() != nil {
+						switch strings.SplitN(funcName(c.Call.StaticCallee()), "[", 2)[0] {
+						case "slices.Backward", "slices.All", "slices.Values", "maps.Keys", "maps.Values", "maps.All":
+							kind = "induction"
+						}
+					}
+				}
+				exits = append(exits, LoopExit{nil, "sequence exhausted at " + canon(ret.Results[0]), kind})
+			}
 			continue
 		}
 		iff, ok := n.Instrs[len(n.Instrs)-1].(*ssa.If)
 		if !ok {
 			continue
 		}
-		leaves := !nodes[n.Succs[0]] || !nodes[n.Succs[1]]
+		out0, out1 := !nodes[n.Succs[0]], !nodes[n.Succs[1]]
+		if (out0 && panics(n.Succs[0]) && !out1) || (out1 && panics(n.Succs[1]) && !out0) {
+			continue // an internal assertion, not a way out of the loop
+		}
+		leaves := out0 || out1
 		if !leaves {
 			continue
 		}
@@ -234,7 +262,11 @@ func (p *P) fullRangeLoop(rule, construct string, at ssa.Instruction, allowExit 
 		if allowExit != nil && allowExit(e.Cond) {
 			continue
 		}
-		bad = append(bad, fmt.Sprintf("%s at %s", e.Cond, p.c.InstrPos(e.If)))
+		where := ""
+		if e.If != nil {
+			where = " at " + p.c.InstrPos(e.If)
+		}
+		bad = append(bad, e.Cond+where)
 	}
 	if len(bad) > 0 || nInd == 0 {
 		p.r.Fail(rule, construct, p.c.InstrPos(at), "loop can stop early on a data-dependent condition: "+strings.Join(bad, "; "))
